@@ -287,7 +287,9 @@ func TestVerif_C12_Identity(t *testing.T) {
 		if !found {
 			rt.Fatalf("harness: no GroupMemberDeviceAdded event")
 		}
-		acct.Case(true, fmt.Sprintf("identity|%x", inv.PublicKey[:6]), func() any { return map[string]any{"kind": "joined-group-identity", "group_named_after_known_contact": named} }, "identity", lbl07(named, "identity/group-named-after-contact"))
+		acct.Case(true, fmt.Sprintf("identity|%x", inv.PublicKey[:6]), func() any {
+			return map[string]any{"kind": "joined-group-identity", "group_named_after_known_contact": named}
+		}, "identity", lbl07(named, "identity/group-named-after-contact"))
 	})
 }
 
@@ -327,94 +329,120 @@ func TestVerif_C12_Descriptors(t *testing.T) {
 		k.g = g
 		// the group as a member holds it: as issued, or as joined from an invitation that lost the fields which are
 		// not part of what a join verifies (such an invitation is accepted, so its descriptor is in scope)
-		variant := "as-issued"
-		held := g
+		variants := []string{"as-issued"}
 		if kind == 2 {
-			variant = rapid.SampledFrom([]string{"as-issued", "link_key_sig-removed", "link_key_sig-emptied"}).Draw(rt, "variant")
-			held = proto.Clone(g).(*protocoltypes.Group)
-			switch variant {
-			case "link_key_sig-removed":
-				held.LinkKeySig = nil
-			case "link_key_sig-emptied":
-				held.LinkKeySig = []byte{}
-			}
-			if err := held.IsValid(); err != nil {
-				rt.Fatalf("harness: the %s invitation is not accepted: %v", variant, err)
-			}
-		}
-		fail := func(id, f string, a ...any) {
-			msg := fmt.Sprintf(f, a...)
-			acct.Violation("descriptor/"+id, "TestVerif_C12_Descriptors", map[string]any{"group_type": g.GroupType.String(), "held_as": variant, "msg": msg})
-			rt.Fatalf("C12 %s (group held %s): %s", id, variant, msg)
-		}
-		d, err := FilterGroupForReplication(held)
-		if err != nil {
-			fail("filter-error", "FilterGroupForReplication failed for a %v group: %v", g.GroupType, err)
-		}
-		if len(d.Secret) != 0 || len(d.SecretSig) != 0 {
-			fail("secret-in-descriptor", "descriptor carries the secret or its signature")
-		}
-		ser, _ := proto.Marshal(d)
-		for i := 0; i+8 <= len(g.Secret); i++ {
-			if bytes.Contains(ser, g.Secret[i:i+8]) {
-				fail("secret-in-descriptor", "the serialized descriptor contains bytes %d..%d of the group secret", i, i+8)
-			}
-		}
-		// every metadata event type and messages of a session
-		if err := ss.PutGroup(vCtx, g); err != nil {
-			rt.Fatalf("harness: %v", err)
+			variants = []string{"as-issued", "link_key_sig-removed", "link_key_sig-emptied", "sign_pub-filled-in", "link_key-filled-in", "sign_pub-and-link_key-filled-in"}
 		}
 		tried := 0
-		for _, et := range types {
-			honest, _, _, _ := c03Build(rt, k, et)
-			if _, _, err := openGroupEnvelope(g, honest); err != nil {
-				continue // (only possible for the group-signed event on groups whose private key the harness does not hold)
+		for _, variant := range variants {
+			held := g
+			if kind == 2 {
+				held = proto.Clone(g).(*protocoltypes.Group)
+				// an invitation may spell out the optional fields every member derives (same values: still accepted)
+				fillSignPub := func() {
+					spk, err := g.GetSigningPubKey()
+					if err != nil {
+						rt.Fatalf("harness: %v", err)
+					}
+					held.SignPub, _ = spk.Raw()
+				}
+				fillLinkKey := func() {
+					lk, err := g.GetLinkKeyArray()
+					if err != nil {
+						rt.Fatalf("harness: %v", err)
+					}
+					held.LinkKey = lk[:]
+				}
+				switch variant {
+				case "link_key_sig-removed":
+					held.LinkKeySig = nil
+				case "link_key_sig-emptied":
+					held.LinkKeySig = []byte{}
+				case "sign_pub-filled-in":
+					fillSignPub()
+				case "link_key-filled-in":
+					fillLinkKey()
+				case "sign_pub-and-link_key-filled-in":
+					fillSignPub()
+					fillLinkKey()
+				}
+				if err := held.IsValid(); err != nil {
+					rt.Fatalf("harness: the %s invitation is not accepted: %v", variant, err)
+				}
 			}
-			tried++
-			if _, _, err := openGroupEnvelope(d, honest); err == nil {
-				fail("descriptor-opens-metadata", "the descriptor opened a %v event", et)
+			fail := func(id, f string, a ...any) {
+				msg := fmt.Sprintf(f, a...)
+				acct.Violation("descriptor/"+id, "TestVerif_C12_Descriptors", map[string]any{"group_type": g.GroupType.String(), "held_as": variant, "msg": msg})
+				rt.Fatalf("C12 %s (group held %s): %s", id, variant, msg)
 			}
-		}
-		for i := 0; i < 3; i++ {
-			pl, _ := proto.Marshal(&protocoltypes.EncryptedMessage{Plaintext: []byte(fmt.Sprintf("message %d", i))})
-			env, err := ss.SealEnvelope(vCtx, g, pl)
+			d, err := FilterGroupForReplication(held)
 			if err != nil {
-				rt.Fatalf("harness: seal: %v", err)
+				fail("filter-error", "FilterGroupForReplication failed for a %v group: %v", g.GroupType, err)
 			}
-			if _, _, err := ss.OpenEnvelopeHeaders(env, g); err != nil {
-				rt.Fatalf("harness: full group cannot open headers: %v", err)
+			if len(d.Secret) != 0 || len(d.SecretSig) != 0 {
+				fail("secret-in-descriptor", "descriptor carries the secret or its signature")
 			}
-			tried++
-			if _, hdr, err := ss.OpenEnvelopeHeaders(env, d); err == nil {
-				fail("descriptor-opens-message-headers", "the descriptor opened message headers (counter %d)", hdr.Counter)
+			ser, _ := proto.Marshal(d)
+			for i := 0; i+8 <= len(g.Secret); i++ {
+				if bytes.Contains(ser, g.Secret[i:i+8]) {
+					fail("secret-in-descriptor", "the serialized descriptor contains bytes %d..%d of the group secret", i, i+8)
+				}
 			}
-		}
-		// same log addresses
-		for _, st := range []string{"wesh_group_metadata", "wesh_group_messages"} {
-			a1, e1 := defaultACForGroup(g, st)
-			a2, e2 := defaultACForGroup(d, st)
-			if e1 != nil || e2 != nil {
-				fail("address-error", "access controller: %v / %v", e1, e2)
+			// every metadata event type and messages of a session
+			if err := ss.PutGroup(vCtx, g); err != nil {
+				rt.Fatalf("harness: %v", err)
 			}
-			if a1.GetAddress().String() != a2.GetAddress().String() {
-				fail("address-differs", "descriptor designates another %s log (access controller %s vs %s)", st, a2.GetAddress(), a1.GetAddress())
+			for _, et := range types {
+				honest, _, _, _ := c03Build(rt, k, et)
+				if _, _, err := openGroupEnvelope(g, honest); err != nil {
+					continue // (only possible for the group-signed event on groups whose private key the harness does not hold)
+				}
+				tried++
+				if _, _, err := openGroupEnvelope(d, honest); err == nil {
+					fail("descriptor-opens-metadata", "the descriptor opened a %v event", et)
+				}
 			}
-		}
-		if d.GroupIDAsString() != g.GroupIDAsString() {
-			fail("address-differs", "descriptor has another group id")
-		}
-		l1, e1 := g.GetLinkKeyArray()
-		l2, e2 := d.GetLinkKeyArray()
-		if e1 != nil || e2 != nil || *l1 != *l2 {
-			fail("link-key-differs", "descriptor link key differs (%v %v)", e1, e2)
-		}
-		p1, _ := g.GetSigningPubKey()
-		p2, e := d.GetSigningPubKey()
-		if e != nil || !p1.Equals(p2) {
-			fail("signing-key-differs", "descriptor names another log signing key")
+			for i := 0; i < 3; i++ {
+				pl, _ := proto.Marshal(&protocoltypes.EncryptedMessage{Plaintext: []byte(fmt.Sprintf("message %d", i))})
+				env, err := ss.SealEnvelope(vCtx, g, pl)
+				if err != nil {
+					rt.Fatalf("harness: seal: %v", err)
+				}
+				if _, _, err := ss.OpenEnvelopeHeaders(env, g); err != nil {
+					rt.Fatalf("harness: full group cannot open headers: %v", err)
+				}
+				tried++
+				if _, hdr, err := ss.OpenEnvelopeHeaders(env, d); err == nil {
+					fail("descriptor-opens-message-headers", "the descriptor opened message headers (counter %d)", hdr.Counter)
+				}
+			}
+			// same log addresses
+			for _, st := range []string{"wesh_group_metadata", "wesh_group_messages"} {
+				a1, e1 := defaultACForGroup(g, st)
+				a2, e2 := defaultACForGroup(d, st)
+				if e1 != nil || e2 != nil {
+					fail("address-error", "access controller: %v / %v", e1, e2)
+				}
+				if a1.GetAddress().String() != a2.GetAddress().String() {
+					fail("address-differs", "descriptor designates another %s log (access controller %s vs %s)", st, a2.GetAddress(), a1.GetAddress())
+				}
+			}
+			if d.GroupIDAsString() != g.GroupIDAsString() {
+				fail("address-differs", "descriptor has another group id")
+			}
+			l1, e1 := g.GetLinkKeyArray()
+			l2, e2 := d.GetLinkKeyArray()
+			if e1 != nil || e2 != nil || *l1 != *l2 {
+				fail("link-key-differs", "descriptor link key differs (%v %v)", e1, e2)
+			}
+			p1, _ := g.GetSigningPubKey()
+			p2, e := d.GetSigningPubKey()
+			if e != nil || !p1.Equals(p2) {
+				fail("signing-key-differs", "descriptor names another log signing key")
+			}
 		}
 		acct.Case(true, fmt.Sprintf("desc|%d|%x", kind, g.PublicKey[:6]), func() any {
-			return map[string]any{"kind": "descriptor", "group_type": g.GroupType.String(), "envelopes_tried": tried}
-		}, "descriptor", "descriptor/"+g.GroupType.String(), lbl07(variant != "as-issued", "descriptor/joined-without-link-key-sig"))
+			return map[string]any{"kind": "descriptor", "group_type": g.GroupType.String(), "held_as": variants, "envelopes_tried": tried}
+		}, "descriptor", "descriptor/"+g.GroupType.String(), lbl07(kind == 2, "descriptor/joined-without-link-key-sig"), lbl07(kind == 2, "descriptor/invitation-with-optional-fields-filled-in"))
 	})
 }
